@@ -8,6 +8,7 @@ import (
 	"github.com/tencent/goom/internal/arch/x86asm"
 	"github.com/tencent/goom/internal/bytecode/memory"
 	"github.com/tencent/goom/internal/logger"
+	"github.com/tencent/goom/internal/simhook"
 )
 
 // defaultInsLen 默认一次解析指令的长度
@@ -22,6 +23,8 @@ const CallInsName = "CALL"
 // GetFuncSize get func binary size
 // not absolutely safe
 func GetFuncSize(mode int, start uintptr, minimal bool) (length int, err error) {
+	simhook.Acquire(simhook.LockFuncSize)
+	defer simhook.Release(simhook.LockFuncSize)
 	funcSizeReadLock.Lock()
 	defer func() {
 		funcSizeCache[start] = length
